@@ -531,6 +531,15 @@ pub fn analyze(sc: &StreamScenario, out: &StreamOutcome) -> Analysis {
                         AppRes::Timeout => {
                             if now - op_start_now < crate::exec::HANDSHAKE_TIMEOUT_MS && !dead {
                                 vio.push(v("write.spurious_timeout", format!("op {}: handshake timed out after {} simulated ms", op, now - op_start_now)));
+                            } else {
+                                facts.probe("handshake_timed_out");
+                                if a_off > 0 && a_off < e.len() {
+                                    // the handshake gave up mid-frame: the wire is torn by the timeout
+                                    wire_broken = true;
+                                }
+                                if staged > 0 {
+                                    wire_broken = true;
+                                }
                             }
                         },
                         other => {
